@@ -364,6 +364,39 @@ def check_refuse(ctx):
     ctx.check(R, cf, "every key of both column descriptions is compared", keys_ok, "the union of the two key sets is no longer iterated", key="keys", nontrivial=False)
 
 
+def check_unit_refusal(ctx):
+    R = "C12-REFUSE"
+    cf = ctx.prog.func(SH, "_custom_tbl_dtype_compare", R)
+    # (1) units: compared as stored strings, under the `unit` key
+    cmps = []
+    for n in A.walk_local(cf):
+        if isinstance(n, ast.Compare) and len(n.ops) == 1 and isinstance(n.ops[0], (ast.NotEq, ast.Eq)):
+            l, r = n.left, n.comparators[0]
+            if all(isinstance(x, ast.Call) and A.last_attr(x) == "get" for x in (l, r)) and canon(l.func.value) != canon(r.func.value) and canon(l.args[0]) == canon(r.args[0]):
+                cmps.append(n)
+    unit_cmp = [n for n in cmps if any(pol and "'unit'" in A.unparse(t) for t, pol in A.guards_of(A.enclosing_stmt(n))) or A.str_const(n.left.args[0]) == "unit"]
+    loose = [c for c in A.calls_in(cf) if A.last_attr(c) in ("is_equivalent", "to", "physical_type") or (A.call_name(c) or "").endswith("Unit")]
+    ctx.check(R, cf, "column units are compared exactly (as stored), not up to convertibility", bool(unit_cmp) and not loose,
+              ("units are compared with `%s`: a chunk in another (convertible) unit is accepted and its bare numbers are stored under the first chunk's unit" % A.unparse(loose[0])[:60]) if loose
+              else "no equality comparison of the two `unit` entries", key="unit-exact")
+    # (2) the metadata merge sees both metadata dictionaries unfiltered
+    fn = ctx.prog.func(SH, "write_table_hdf5", R)
+    merges = [c for c in A.calls_in(fn) if A.call_name(c) == "metadata.merge"]
+    okm = bool(merges)
+    whym = "metadata.merge is not called"
+    for c in merges:
+        r0, r1 = A.get_arg(c, 0, "left"), A.get_arg(c, 1, "right")
+        a0 = A.inline_temporaries(r0, A.enclosing_stmt(c), fn) if r0 is not None else None
+        a1 = A.inline_temporaries(r1, A.enclosing_stmt(c), fn) if r1 is not None else None
+        ok0 = a0 is not None and isinstance(a0, ast.Subscript) and A.str_const(a0.slice) == "meta"
+        ok1 = a1 is not None and canon(a1) == "table.meta"
+        if not (ok0 and ok1):
+            okm = False
+            whym = "metadata.merge(%s, %s): part of the metadata (the record of the column units lives there) is kept out of the conflict check" % (
+                A.unparse(a0)[:40] if a0 is not None else None, A.unparse(a1)[:40] if a1 is not None else None)
+    ctx.check(R, fn, "the whole metadata of both tables takes part in the conflict check", okm, whym, key="merge-whole")
+
+
 def check_paths(ctx):
     R = "C12-PATHS"
     ctx.rule(R, "writer and readers agree on the dataset path (JokerSamples._hdf5_path) and its metadata path meta_path(path); write() passes the table, the path, "
@@ -440,6 +473,7 @@ def run(ctx):
     check_dispatch(ctx)
     check_col(ctx)
     check_refuse(ctx)
+    check_unit_refusal(ctx)
     check_paths(ctx)
     ctx.floor("C12-COL", ctx.count("C12-COL"), 20)
     ctx.assume("astropy Table/QTable HDF5+YAML serialisation, h5py and pytables preserve values, units and metadata (exact round-trip through the libraries is not decided)")
